@@ -321,7 +321,8 @@ fn wide_valid(t: &mut Tape, prefix: &str, n_decls: usize) -> (String, Vec<String
                 stmts.push(format!("{} := {}.{} {}", var, name, members[k].0, lits[k]));
             }
             let mut c = format!("case {} do\n", var);
-            let order = pick_positions(t, n, 1 + t.below(n));
+            let m = 1 + t.below(n);
+            let order = pick_positions(t, n, m);
             for i in order {
                 if lits[i].is_empty() {
                     c.push_str(&format!("        {} -> print({}) end\n", members[i].0, i));
@@ -382,7 +383,8 @@ fn valid_multi_file(t: &mut Tape) -> Built {
         }
         s.push_str(&format!("val{} :: {}\n", i, i + 10));
         s.push_str(&format!("fun{} :: fn x: int -> int do\n    ret x + val{}\nend\n", i, i));
-        let (decls, _) = wide_valid(t, &format!("M{}", i), 1 + t.below(2));
+        let nd = 1 + t.below(2);
+        let (decls, _) = wide_valid(t, &format!("M{}", i), nd);
         s.push_str(&decls);
         if i > 0 && s.starts_with("use ") {
             s.push_str(&format!("via{} :: fn -> int do\n    ret {}.fun{}(1)\nend\n", i, mods[i - 1], i - 1));
@@ -403,7 +405,8 @@ fn valid_multi_file(t: &mut Tape) -> Built {
             }
         }
     }
-    let (decls, stmts) = wide_valid(t, "", 1 + t.below(2));
+    let nd = 1 + t.below(2);
+    let (decls, stmts) = wide_valid(t, "", nd);
     main.push_str(&decls);
     main.push_str("start :: fn do\n");
     for st in body.iter().chain(stmts.iter()) {
@@ -424,7 +427,8 @@ fn valid_generated(t: &mut Tape) -> Built {
     let p = Gen::new(t, cfg).program();
     let mut s = print_program(&p, &SurfacePlan::default()).text;
     if t.chance(1, 2) {
-        let (decls, _) = wide_valid(t, "Xtra", 1 + t.below(3));
+        let nd = 1 + t.below(3);
+        let (decls, _) = wide_valid(t, "Xtra", nd);
         s.push_str(&decls);
     }
     Built { project: single(s), class: "valid-generated", planted: 0 }
